@@ -67,7 +67,7 @@ class Ctx:
             raise Unresolved("expected exactly one thread spawn with a closure, found %d" % len(found))
         return found[0]
 
-    def all_calls(self, rx):
+    def all_calls(self, rx, fn_items=True):
         """(body, bb index, terminator) of every call in any non-cleanup block matching rx."""
         out = []
         for b in self.facts.doc["bodies"]:
@@ -79,6 +79,12 @@ class Ctx:
                 t = blk["term"]
                 if t["k"] == "call" and cmatch(t, rx):
                     out.append((b, bi, t))
+                elif fn_items and t["k"] == "call":
+                    # a function handed over as a value (`iter.try_for_each(fs::remove_file)`): the adaptor calls it right here
+                    for a in t.get("args", []):
+                        f = a.get("fn") if isinstance(a, dict) else None
+                        if f and re.search(rx, f.get("rpath") or f.get("path") or ""):
+                            out.append((b, bi, {"k": "call", "callee": f, "args": [], "file": t.get("file"), "line": t.get("line"), "as_value": True}))
         return out
 
     def all_aggregates(self, adt_rx, variant=None):
